@@ -37,7 +37,8 @@ def zone_bytes(z, version=1):
                           version=version)
 
 
-def make_archive(members, links=(), metadata=None, order="links_last"):
+def make_archive(members, links=(), metadata=None, order="links_last",
+                 stale=None):
     """tar.gz with regular members {name: bytes}, link members
     [(name, target, 'sym'|'hard')] and optional METADATA json bytes.
     order: where link entries stand relative to their targets -- a tar made
@@ -45,6 +46,11 @@ def make_archive(members, links=(), metadata=None, order="links_last"):
     targets, which is legal: 'links_last' | 'links_first' | 'sorted' (by
     name) | 'reversed' (by name, descending)."""
     entries = []
+    if stale and order == "links_last":
+        # {name: older bytes}: an archive that was appended to (tar -r) lists
+        # a member twice; the LAST entry of a name is the member
+        for name in sorted(stale):
+            entries.append((name + "\0stale", "file", stale[name]))
     for name in sorted(members):
         entries.append((name, "file", members[name]))
     for name, target, kind in links:
@@ -58,7 +64,7 @@ def make_archive(members, links=(), metadata=None, order="links_last"):
     bio = io.BytesIO()
     with tarfile.open(fileobj=bio, mode="w:gz") as tf:
         for name, kind, payload in entries:
-            ti = tarfile.TarInfo(name)
+            ti = tarfile.TarInfo(name.split("\0")[0])
             ti.mtime = 0
             if kind == "file":
                 ti.size = len(payload)
